@@ -158,6 +158,21 @@ def _key(ev, clause):
     return None
 
 
+def _shift_events(_):
+    """the frame bookkeeping itself: CDSFrame.shift in BOTH directions (walking a frame list 3'->5' undoes the 5'->3' walk)"""
+    setup_repo_import()
+    from inscripta.biocantor.gene.cds_frame import CDSFrame
+
+    ev = []
+    for f in CDSFrame:
+        if f.name == "NONE":
+            continue
+        for n in range(-12, 13):
+            ev.append(["fsh", f.value, n, E.outcome(lambda f=f, n=n: f.shift(n).value),
+                       E.outcome(lambda f=f, n=n: f.shift(n).shift(-n).value)])
+    return ev
+
+
 def run(chk):
     quick = chk.quick
     rnd = random.Random(chk.seed * 32452843 + 5)
@@ -191,6 +206,7 @@ def run(chk):
         small = rnd.sample(small, 500)
     parts = pmap(_cds_events, [(small[i::nsh], 7, chk.seed * 337 + i, None) for i in range(nsh)])
     evs += [e for p in parts for e in p]
+    evs += pmap(_shift_events, [0])[0]
     evs += suite_events(chk, "C05Trace")  # leg S: the repository's own tests, traced passively
     chk.validate("C05Trace", evs, shard=800, label="cds", keyfn=_key)
     chk.exhaustive = not quick
